@@ -843,7 +843,16 @@ def cl4(P, C):
                 exp_order = "(order[n]+1)" if nm == "bsplvb_simple" else "order[n]"
                 ok = args[0] in ("(&knots[n][0])", "(&(*knots[n]))") and args[1] == "nknots[n]" and args[2] == "x[n]" and args[3] == "centers[n]" and args[4] == exp_order
             if nm == "bspline_deriv":
-                ok = args[0] == "(&knots[n][0])" and args[1] == "x[n]" and args[2] == "((centers[n]-order[n])+i)" and args[3] == "order[n]" and args[4] == "derivatives[n]"
+                xarg = args[1]
+                a1 = f.strip(f.args(i)[1])
+                if f.k(a1) == "DeclRefExpr" and f.nodes[a1]["decl"]["kind"] == "Var":
+                    # a local copy of the coordinate (adjusted at the last supported point, CL-8): it must start as x[n]
+                    for d_ in f.walk():
+                        if f.k(d_) == "DeclStmt":
+                            for dd in f.nodes[d_]["decls"]:
+                                if dd.get("id") == f.nodes[a1]["decl"]["id"] and dd.get("init", -1) >= 0:
+                                    xarg = f.render(dd["init"]).replace(" ", "")
+                ok = args[0] == "(&knots[n][0])" and xarg == "x[n]" and args[2] == "((centers[n]-order[n])+i)" and args[3] == "order[n]" and args[4] == "derivatives[n]"
             # selector
             if f.name == "ndsplineeval":
                 sel = conds[0] if conds else None
@@ -907,6 +916,72 @@ def cl4(P, C):
             ok = lanes.get(("0", ())) == "valbasis[i]" and lanes.get(("j", (("(j==(1+n))", True),))) == "gradbasis[i]" and \
                 lanes.get(("j", (("(j==(1+n))", False),))) == "valbasis[i]" and len(lanes) == 3
             C.ob("CL-4", name, "lane-wiring", ok, f.where(), "lane 0 <- value basis, lane 1+n <- derivative basis, other lanes <- value basis: %s" % lanes)
+
+
+def cl8(P, C):
+    """CL-8: lookup and the recursive reference must agree on which polynomial piece a knot belongs to."""
+    C.rule("CL-8", "centre lookup assigns the upper end of the supported range to the interval on its LEFT (last-interval adjustment), while the "
+           "recursive reference bspline()/bspline_deriv() bottoms out in the half-open indicator knots[i] <= x < knots[i+1], i.e. takes the "
+           "piece on the RIGHT of a knot; an entry point that hands x unchanged to the recursive reference therefore evaluates the wrong piece "
+           "exactly at the upper end, where the derivative of order == spline order is discontinuous. The kernels used for values and first "
+           "derivatives are polynomial in the chosen interval and have no such indicator", floor=2)
+    # premise A: searchcenters puts x == upper end of the fully supported range (knots[naxes]) into the interval on its left:
+    # a branch on x >= knots[i][naxes[i]] (equality included) that stores naxes[i]-1
+    S = [g for g in P.fns("searchcenters") if g.unit == "driver" and g.cls == ts.CLS]
+    A = False
+    if S:
+        f = S[0]
+        for i in f.walk():
+            if f.k(i) == "IfStmt":
+                c = f.alpha(f.nodes[i]["cond"])[0].replace(" ", "")
+                if c == "($0[v0]>=knots[v0][naxes[v0]])":
+                    st = [f.alpha(x)[0].replace(" ", "") for x in f.walk(f.nodes[i]["then"]) if ts.assign_parts(f, x)]
+                    A = "($1[v0]=(naxes[v0]-1))" in st
+    # premise B: right-continuous degree-0 indicator in the reference
+    B = False
+    R = [g for g in P.fns("bspline") if g.file.endswith("core/bspline.cpp")]
+    if R:
+        f = R[0]
+        for i in f.walk():
+            if f.k(i) == "BinaryOperator" and f.nodes[i]["op"] == "&&":
+                t = f.alpha(i)[0].replace(" ", "")
+                if t == "(($1>=$0[$2])&&($1<$0[($2+1)]))":
+                    B = True
+    n = 0
+    for f in sorted(entry_points(P), key=lambda f: (f.cls, f.name, str(f.targs))):
+        if f.name != "ndsplineeval_deriv":
+            continue
+        is_ev = "evaluator_type" in (f.cls or "")
+        name = ("evaluator::" if is_ev else "table::") + "%s<%s>" % (f.name, ",".join(str(t) for t in f.targs) or (re.findall(r"evaluator_type<(\w*)>", f.cls or "") or [""])[0])
+        sites = [i for i, cal in f.calls() if cal and cal["name"] == "bspline_deriv"]
+        raw = [i for i in sites if f.render(f.args(i)[1]).replace(" ", "") == "x[n]"]
+        # accepted idiom: a local copy of x[n] moved one ulp into the centre's interval when it equals that interval's upper knot
+        for i in sites:
+            a1 = f.strip(f.args(i)[1])
+            if i in raw or f.k(a1) != "DeclRefExpr":
+                continue
+            vid = f.nodes[a1]["decl"]["id"]
+            adj = False
+            for y in f.walk():
+                ap = ts.assign_parts(f, y)
+                if ap and ap[1] is not None and f.k(f.strip(ap[0])) == "DeclRefExpr" and f.nodes[f.strip(ap[0])]["decl"]["id"] == vid:
+                    g = [a for a in f.ancestors(y) if f.k(a) == "IfStmt"]
+                    cnd = f.render(f.nodes[g[0]]["cond"]).replace(" ", "").replace("this->", "").replace("table.", "") if g else ""
+                    rhs = f.render(ap[1]).replace(" ", "").replace("this->", "").replace("table.", "")
+                    nm_ = f.var_name(vid)
+                    if cnd == "(%s==knots[n][(centers[n]+1)])" % nm_ and rhs.endswith("nextafter(%s,knots[n][centers[n]])" % nm_):
+                        adj = True
+            if not adj:
+                raw.append(i)
+        n += 1
+        ok = not (A and B and raw)
+        C.ob("CL-8", name, "one-sided-convention", ok, f.loc(raw[0]) if raw else f.where(),
+             "no unadjusted hand-over of the coordinate to the recursive reference" if ok else
+             "x[n] goes unchanged into bspline_deriv (right-hand piece at a knot) although lookup put the upper end of the supported range into "
+             "the interval on its left: at exactly that point a derivative of order == spline order (>= 2) comes from the wrong piece")
+    if n == 0:
+        raise core.AnalysisBroken("CL-8: no ndsplineeval_deriv entry point found")
+    return A, B
 
 
 def cl3(P, C):
